@@ -59,6 +59,16 @@ impl PartialOrd for Duration {
         Some(if self.nanos < other.nanos { core::cmp::Ordering::Less } else if self.nanos == other.nanos { core::cmp::Ordering::Equal } else { core::cmp::Ordering::Greater })
     }
 }
+// `+` (std panics on overflow: kept as a precondition)
+impl vstd::std_specs::ops::AddSpecImpl<Duration> for Duration {
+    open spec fn obeys_add_spec() -> bool { true }
+    open spec fn add_req(self, rhs: Duration) -> bool { self.nanos + rhs.nanos <= u128::MAX }
+    open spec fn add_spec(self, rhs: Duration) -> Duration { Duration { nanos: (self.nanos + rhs.nanos) as u128 } }
+}
+impl core::ops::Add for Duration {
+    type Output = Duration;
+    fn add(self, rhs: Duration) -> Duration { Duration { nanos: self.nanos + rhs.nanos } }
+}
 // `+=` (std panics on overflow: kept as a precondition through vstd's AddAssignSpecImpl); the body is verified against that spec
 impl vstd::std_specs::ops::AddAssignSpecImpl<Duration> for Duration {
     open spec fn obeys_add_assign_spec() -> bool { true }
